@@ -1122,10 +1122,13 @@ class StrategyBase(Node):
             # bid/offer paid per ticker, like the positions above
             bidoffer = pd.DataFrame()
             for x in self.securities:
+                # bid/offer paid is in currency (it includes the multiplier),
+                # prices are per unit
+                paid = x.bidoffers_paid / x.multiplier
                 if x.name in bidoffer.columns:
-                    bidoffer[x.name] += x.bidoffers_paid
+                    bidoffer[x.name] += paid
                 else:
-                    bidoffer[x.name] = x.bidoffers_paid
+                    bidoffer[x.name] = paid
             prc += bidoffer.unstack() / trades
 
         res = pd.DataFrame({"price": prc, "quantity": trades}).dropna(subset=["quantity"])
